@@ -19,7 +19,13 @@ LEVEL_NOTE = (
 RULE = (
     "seeded generator by input class (special-case shapes in every operand order with random operands / random "
     "trees to depth 6 quick, 8 thorough / trees built with evaluate=False to depth 5 / symbol-free numeric trees / "
-    "unsupported constructs alone and embedded / tuples / symbol-name families for the sort keys); leaves: symbols "
+    "unsupported constructs alone and embedded / tuples / symbol-name families for the sort keys incl. several "
+    "fixed-names factories over the same names in one case / histories: a base expression and 1-3 expressions that "
+    "differ from it in one symbol, one number (incl. Python-equal ones: 2 vs 2.0, hash(-1)==hash(-2)), the order of "
+    "two symbols, one node on top, or a symbol that prints like it; their trees - also equal trees that are distinct "
+    "objects - are translated in random order with 1-3 other dialects (numeric evaluation at fixed symbol values, "
+    "printer, variants of the sympy dialect that share two of its three parts, with the same / one more / one fewer "
+    "function name) and with the sympy dialect, each at least once after other translations); leaves: symbols "
     "(names with digit groups, names shadowing sympy constants, with assumptions), integers incl. 10**20, floats, "
     "rationals, I. Non-trivial: >=6 nodes, >=1 symbol and a subtraction/division/reciprocal/half-power shape "
     "(trees); an unsupported node below the root (unsupported); >=3 names whose integers differ in digit count "
@@ -47,12 +53,16 @@ ASSUMPTIONS = [
     "unevaluated radical tree by -1; str() of the same tree fails too) is the environment, not a refusal: no verdict",
     "a supported tree that is undefined at every assignment (e.g. a literal division by zero built with "
     "evaluate=False) may be refused",
+    "histories: only what the sympy dialect returns is judged (against the sympy expression the tree was made from "
+    "and, by the hook, against the tree); translations with any other dialect are history, their results and "
+    "exceptions are not judged",
     "sort keys: only pairs of names with the same non-digit skeleton are judged (the property speaks about the "
     "embedded integers); natural: integer tuples compared lexicographically, revlex: reversed tuples",
 ]
 DECIDING = [
     "expression_from_sympy", "translate_expression", "translate_tuple", "natural_key", "natural_key_revlex",
     "roundtrip-value", "supported-not-refused", "unsupported-refused", "tuple-roundtrip", "key-sort",
+    "history-value",
 ]
 BUDGET = {"quick": (4, 35, 800), "thorough": (16, 200, 10000)}
 MIN_EVALS = {"quick": 400, "thorough": 2000}
@@ -70,7 +80,7 @@ _LIB = {}
 
 
 def classes(tier):
-    return ["special", "random", "unevaluated", "numeric", "unsupported", "tuple", "keys"]
+    return ["special", "random", "unevaluated", "numeric", "unsupported", "tuple", "keys", "history"]
 
 
 # ============================================================================ reference interpreter
@@ -340,8 +350,22 @@ def _declare(e):
         pass
 
 
+_REF_MEMO = {}  # per case: (interpreter, id of the object, n, positive names) -> (object, reference values)
+
+
 def reference_values(eval_fn, obj, n=N_ASSIGN):
-    """per assignment: ('ok', value, scale) | ('skip', why) ; raises Unknown"""
+    """per assignment: ('ok', value, scale) | ('skip', why) ; raises Unknown.  Within one case the values of
+    the very same (immutable) input object are computed once: histories translate one tree many times"""
+    key = (eval_fn.__name__, id(obj), n, frozenset(_POS))
+    hit = _REF_MEMO.get(key)
+    if hit is not None and hit[0] is obj:
+        return hit[1]
+    out = _reference_values(eval_fn, obj, n)
+    _REF_MEMO[key] = (obj, out)
+    return out
+
+
+def _reference_values(eval_fn, obj, n):
     out = []
     for k in range(n):
         env = lambda name, k=k: value_for(name, k)  # noqa: E731
@@ -951,6 +975,136 @@ def unsupported_atoms(rng, S, a, b):
         return "log", S.log(S.Symbol("x"))
 
 
+# ============================================================================ histories
+# The neutral tree exists to be translated into more than one dialect.  What the sympy dialect makes of a
+# tree must not depend on what the same process translated before: the same / an equal / a nearly equal
+# tree with another dialect (numeric evaluation at fixed symbol values, a printer, a variant of the sympy
+# dialect that shares some of its parts), or a nearly equal tree with the sympy dialect itself.
+def other_dialects(rng, S, EX, SD, names):
+    """[(label, dialect)] - dialects a user of the neutral tree could define; every one differs from the
+    sympy dialect SD in at least one of its three parts and defines (unless labelled +/-) the same
+    function names"""
+    import cmath
+    import operator
+
+    fnames = list(SD.known_functions)
+    bind = {n: complex(rng.uniform(-2, 2), 0) if rng.random() < 0.8 else complex(rng.uniform(-2, 2), rng.uniform(-1, 1))
+            for n in names}
+
+    def lookup(sym):
+        return bind.get(sym.name, 0.75)
+
+    def chain(op):
+        def f(*args):
+            acc = args[0]
+            for a in args[1:]:
+                acc = op(acc, a)
+            return acc
+        return f
+
+    numeric = {"add": chain(operator.add), "mul": chain(operator.mul), "sub": operator.sub, "div": operator.truediv,
+               "pow": operator.pow, "sqrt": cmath.sqrt, "sin": cmath.sin, "cos": cmath.cos, "tan": cmath.tan,
+               "exp": cmath.exp}
+
+    def printer(name):
+        return lambda *args: f"{name}({', '.join(map(str, args))})"
+
+    def table(kind):
+        if kind == "numeric":
+            return {n: numeric.get(n, lambda *a: 0.125) for n in fnames}
+        if kind == "printer":
+            return {n: printer(n) for n in fnames}
+        # the sympy callables, permuted: same names, same kind of results, other meaning
+        tab = dict(SD.known_functions)
+        for a, b in (("sin", "cos"), ("add", "mul"), ("tan", "exp")):
+            if a in tab and b in tab:
+                tab[a], tab[b] = tab[b], tab[a]
+        if "sub" in tab:
+            tab["sub"] = lambda x, y, f=SD.known_functions["sub"]: f(y, x)
+        if "div" in tab:
+            tab["div"] = lambda x, y, f=SD.known_functions["div"]: f(y, x)
+        return tab
+
+    shift = S.Rational(3, 2)
+    out = []
+    for _ in range(rng.choice([1, 1, 2, 3])):
+        kind = rng.choice(["numeric", "numeric", "printer", "renamed-symbols", "bound-symbols", "other-numbers",
+                           "permuted-functions", "numeric-symbols-only"])
+        if kind == "numeric":
+            d = EX.ExpressionDialect(symbol_factory=lookup, number_factory=lambda n: n, known_functions=table("numeric"))
+        elif kind == "printer":
+            d = EX.ExpressionDialect(symbol_factory=lambda sym: sym.name, number_factory=repr, known_functions=table("printer"))
+        elif kind == "renamed-symbols":  # shares number factory and function table (the very dict) with SD
+            d = SD._replace(symbol_factory=lambda sym: S.Symbol(sym.name + "_r"))
+        elif kind == "bound-symbols":  # substitution through the dialect
+            d = SD._replace(symbol_factory=lambda sym: S.Float(lookup(sym).real))
+        elif kind == "other-numbers":  # shares symbol factory and function table with SD
+            d = SD._replace(number_factory=lambda n: n + shift)
+        elif kind == "permuted-functions":  # shares both factories with SD
+            d = SD._replace(known_functions=table("permuted"))
+        else:
+            d = EX.ExpressionDialect(symbol_factory=lookup, number_factory=SD.number_factory, known_functions=dict(SD.known_functions))
+        r = rng.random()
+        if r < 0.15 and not d.known_functions is SD.known_functions:
+            kf = dict(d.known_functions)
+            kf["log"] = (lambda *a: 0.5)
+            d = d._replace(known_functions=kf)
+            kind += "+log"
+        elif r < 0.25 and "tan" in d.known_functions:
+            kf = dict(d.known_functions)
+            del kf["tan"]
+            d = d._replace(known_functions=kf)
+            kind += "-tan"
+        out.append((kind, d))
+    return out
+
+
+def near_variants(rng, S, e, n):
+    """[(label, expression)]: n expressions that differ from ``e`` in one respect only (a symbol, a number,
+    the order of two symbols, one more node on top, a symbol that prints like the whole expression)"""
+    out = []
+    syms = sorted(getattr(e, "free_symbols", ()), key=lambda x: x.name)
+    nums = sorted({a for a in _preorder(e) if isinstance(a, (S.Integer, S.Rational, S.Float))}, key=S.srepr) \
+        if isinstance(e, S.Basic) else []
+    for _ in range(n):
+        kind = rng.choice(["same", "rename", "rename", "swap", "number", "number", "number", "wrap", "wrap", "printname"])
+        v = None
+        if kind == "same":
+            v = e
+        elif kind == "rename" and syms:
+            old = rng.choice(syms)
+            new = S.Symbol(rng.choice([old.name + "_1", old.name + "0", old.name.upper(), "w"] + NAMES[:8]))
+            v = e.xreplace({old: new})
+        elif kind == "swap" and len(syms) >= 2:
+            a, b = rng.sample(syms, 2)
+            v = e.xreplace({a: b, b: a})
+        elif kind == "number" and nums:
+            old = rng.choice(nums)
+            # includes numbers that are equal / hash equal as Python objects: 2 and 2.0, -1 and -2 (hash(-1) == hash(-2))
+            if old == -1:
+                new = rng.choice([S.Integer(-2), S.Float(-1.0), S.Integer(1)])
+            elif old == -2:
+                new = rng.choice([S.Integer(-1), S.Float(-2.0), S.Integer(2)])
+            else:
+                new = rng.choice([old + 1, -old, S.Float(float(old)) if not isinstance(old, S.Float) else old * 2,
+                                  old / 2, S.Integer(-2), S.Integer(3)])
+            v = e.xreplace({old: new})
+        elif kind == "wrap":
+            x = rng.choice(syms) if syms and rng.random() < 0.5 else rand_leaf(rng)
+            v = rng.choice([lambda: e + x, lambda: x - e, lambda: e - x, lambda: e / x, lambda: x / e, lambda: -e,
+                            lambda: S.sin(e), lambda: S.cos(e), lambda: S.exp(e), lambda: S.sqrt(e), lambda: e ** 2,
+                            lambda: 2 * e, lambda: e * x, lambda: 1 / e])()
+        elif kind == "printname":
+            try:
+                v = S.Symbol(str(e))
+            except Exception:
+                v = None
+        if v is None:
+            kind, v = "same", e
+        out.append((kind, v))
+    return out
+
+
 # ============================================================================ cases
 def _features(e):
     """structural only (no sympy assumption queries: they can raise on unevaluated trees such as 1/0)"""
@@ -996,28 +1150,38 @@ def _roundtrip(ctx, e, label):
         stage = "translate_expression"
         back = translate_expression(t, SYMPY_DIALECT)
     except Exception as ex:  # judged: refusal
-        if _sympy_internal(ex):
-            ctx.mon.note(f"refused:sympy-internal-error:{type(ex).__name__}")
-            return None
-        if bad:
-            ctx.check("unsupported-refused", True)
-            ctx.mon.note(f"refused-at:{stage}")
-            return None
-        try:
-            ref = reference_values(ev_sympy, e)
-        except Unknown:
-            ref = []
-        if not any(r[0] == "ok" for r in ref):
-            ctx.mon.note("refused:undefined-everywhere")
-            return None
-        later = _evaluated_form_unsupported(e)
-        if later:
-            # every node of the given (unevaluated) tree is supported, but evaluating it yields an
-            # unsupported one: judged like sympy's own rewriting, on the tree it produces
-            ctx.mon.note("refused:evaluation-introduces-unsupported-node")
-            return None
-        ctx.check("supported-not-refused", False, f"{label}: {srepr_short(e)} refused at {stage}: {ex!r}")
+        _judge_refusal(ctx, e, ex, stage, label, bad)
         return None
+    return _judge_back(ctx, e, back, label, bad)
+
+
+def _judge_refusal(ctx, e, ex, stage, label, bad):
+    """the pipeline raised ``ex`` at ``stage`` for the sympy expression ``e``"""
+    if _sympy_internal(ex):
+        ctx.mon.note(f"refused:sympy-internal-error:{type(ex).__name__}")
+        return
+    if bad:
+        ctx.check("unsupported-refused", True)
+        ctx.mon.note(f"refused-at:{stage}")
+        return
+    try:
+        ref = reference_values(ev_sympy, e)
+    except Unknown:
+        ref = []
+    if not any(r[0] == "ok" for r in ref):
+        ctx.mon.note("refused:undefined-everywhere")
+        return
+    later = _evaluated_form_unsupported(e)
+    if later:
+        # every node of the given (unevaluated) tree is supported, but evaluating it yields an
+        # unsupported one: judged like sympy's own rewriting, on the tree it produces
+        ctx.mon.note("refused:evaluation-introduces-unsupported-node")
+        return
+    ctx.check("supported-not-refused", False, f"{label}: {srepr_short(e)} refused at {stage}: {ex!r}")
+
+
+def _judge_back(ctx, e, back, label, bad, check="roundtrip-value"):
+    """``back`` is what the sympy dialect made of the tree of the sympy expression ``e``"""
     if not bad:
         ctx.check("supported-not-refused", True)
     try:
@@ -1038,7 +1202,7 @@ def _roundtrip(ctx, e, label):
     if verdict == "noverdict":
         ctx.mon.note("roundtrip:noverdict")
         return back
-    ctx.check("roundtrip-value", verdict == "same",
+    ctx.check(check, verdict == "same",
               lambda: f"{label}: {srepr_short(e)} came back as {srepr_short(back)}: {detail}")
     return back
 
@@ -1073,6 +1237,7 @@ def _run_case(ctx):
     cls = ctx.cls
     _SALT = rng.randrange(1 << 30)
     _POS.clear()
+    _REF_MEMO.clear()
     _KEYS["natural_key"].clear()
     _KEYS["natural_key_revlex"].clear()
     maxdepth = 6 if ctx.quick else 8
@@ -1182,6 +1347,74 @@ def _run_case(ctx):
         ctx.check("tuple-roundtrip", ok, why)
         return
 
+    if cls == "history":
+        from orquestra.quantum.circuits.symbolic.sympy_expressions import SYMPY_DIALECT, expression_from_sympy
+        from orquestra.quantum.circuits.symbolic.translations import translate_expression
+        EX = _LIB["EX"]
+
+        lvl = rng.choice([1, 2, 2, 3])
+        base = _gen(rand_tree, rng, lvl)
+        if not getattr(base, "free_symbols", None) or size_of(base) < 3:
+            # the shapes the special cases are written for, over plain symbols
+            label, mk = rng.choice(special_shapes())
+            base = _gen(mk, S, *rng.sample([S.Symbol(n) for n in NAMES[:6]], 3))
+        variants = [("base", base)] + _gen(near_variants, rng, S, base, rng.choice([1, 2, 2, 3]))
+        names = sorted({n for _, v in variants for n in _names_of(v)})
+        dialects = other_dialects(rng, S, EX, SYMPY_DIALECT, names)
+        # the history: (variant, dialect) steps in random order; every variant is translated with the sympy
+        # dialect at least once after something else has been translated, the first one once more at the end
+        steps = []
+        for i in range(len(variants)):
+            steps += [(i, rng.randrange(len(dialects))) for _ in range(rng.choice([1, 1, 2]))]
+            steps += [(i, None)] * rng.choice([0, 1])
+        rng.shuffle(steps)
+        order = list(range(len(variants)))
+        rng.shuffle(order)
+        steps += [(i, None) for i in order] + [(0, None)]
+        ctx.describe(f"history {[(k, srepr_short(v, 150)) for k, v in variants]!r} dialects={[k for k, _ in dialects]} "
+                     f"steps={[(i, 'sympy' if d is None else d) for i, d in steps]}"[:600],
+                     len({srepr_short(v, 400) for _, v in variants}) >= 2 and bool(names)
+                     and any(d is not None for _, d in steps))
+        trees = {}
+        for i, (kind, v) in enumerate(variants):
+            _declare(v)
+            try:
+                trees[i] = expression_from_sympy(v)
+            except Exception as ex:
+                _judge_refusal(ctx, v, ex, "expression_from_sympy", f"history {kind}", unsupported_nodes(v))
+        # an equal tree that is a distinct object (converted a second time)
+        fresh = {}
+        for i in list(trees):
+            if rng.random() < 0.5:
+                try:
+                    fresh[i] = expression_from_sympy(variants[i][1])
+                except Exception:
+                    pass
+        before = False
+        for i, d in steps:
+            if i not in trees:
+                continue
+            t = fresh[i] if i in fresh and rng.random() < 0.5 else trees[i]
+            kind, v = variants[i]
+            if d is not None:
+                try:
+                    translate_expression(t, dialects[d][1])
+                    ctx.mon.note(f"history:other-dialect:{dialects[d][0]}")
+                except Exception as ex:  # not judged: the property speaks about the sympy dialect
+                    ctx.mon.note(f"history:other-dialect-raised:{type(ex).__name__}")
+                before = True
+                continue
+            bad = unsupported_nodes(v)
+            try:
+                back = translate_expression(t, SYMPY_DIALECT)
+            except Exception as ex:
+                _judge_refusal(ctx, v, ex, "translate_expression", f"history {kind}", bad)
+                continue
+            _judge_back(ctx, v, back, f"history {kind} (after earlier translations)", bad,
+                        check="history-value" if before else "roundtrip-value")
+            before = True
+        return
+
     if cls == "keys":
         from orquestra.quantum.circuits.symbolic import natural_key, natural_key_revlex
         EX = _LIB["EX"]
@@ -1242,14 +1475,24 @@ def _run_case(ctx):
         fn_names = list(dict.fromkeys(f"{nm}_{i}" for i in idx for nm in order_names if rng.random() < 0.8))
         if len(fn_names) >= 2:
             fsyms = [S.Symbol(n) if kind == "sympy" else EX.Symbol(n) for n in fn_names]
-            rng.shuffle(fsyms)
-            try:
-                got = [s.name for s in sorted(fsyms, key=natural_key_fixed_names_order(order_names))]
-            except Exception as ex:
-                ctx.check("key-sort", False, f"sorting {fn_names!r} with natural_key_fixed_names_order({order_names!r}) raised {ex!r}")
-            else:
-                pairs = [(int(n.rsplit("_", 1)[1]), order_names.index(n.rsplit("_", 1)[0])) for n in got]
+            # a history of factories in one case: the same names in another order (and the first order again)
+            # must give the order asked for, not the one of an earlier factory
+            orders = [list(order_names)]
+            if len(order_names) >= 2:
+                other = list(order_names)
+                while other == order_names:
+                    rng.shuffle(other)
+                orders += [other] + ([list(order_names)] if rng.random() < 0.5 else [])
+            for k, names_order in enumerate(orders):
+                rng.shuffle(fsyms)
+                try:
+                    got = [s.name for s in sorted(fsyms, key=natural_key_fixed_names_order(names_order))]
+                except Exception as ex:
+                    ctx.check("key-sort", False, f"sorting {fn_names!r} with natural_key_fixed_names_order({names_order!r}) raised {ex!r}")
+                    continue
+                pairs = [(int(n.rsplit("_", 1)[1]), names_order.index(n.rsplit("_", 1)[0])) for n in got]
                 ctx.check("key-sort", all(pairs[i] <= pairs[i + 1] for i in range(len(pairs) - 1)),
-                          lambda: f"natural_key_fixed_names_order({order_names!r}): sorted order {got!r} is not by (numeric index, name position)")
+                          lambda: f"natural_key_fixed_names_order({names_order!r}) (factories made before in this case: "
+                                  f"{orders[:k]!r}): sorted order {got!r} is not by (numeric index, name position)")
         return
     raise ValueError(cls)
